@@ -26,6 +26,7 @@ import (
 
 	"github.com/bytedance/sonic/internal/native/types"
 	"github.com/bytedance/sonic/internal/rt"
+	"github.com/bytedance/sonic/internal/verifhook"
 )
 
 const (
@@ -185,6 +186,7 @@ func (self *Node) Raw() (string, error) {
 		buf, err := self.MarshalJSON()
 		return rt.Mem2Str(buf), err
 	}
+	verifhook.Point(verifhook.AstRawLocked)
 	ret := self.toString()
 	if lock {
 		self.runlock()
@@ -2085,6 +2087,7 @@ func (self *Node) parseRaw(full bool) {
 		defer m.Unlock()
 	}
 	if !self.isRaw() {
+		verifhook.Point(verifhook.AstParseRawLost)
 		return
 	}
 	raw := self.toString()
@@ -2103,6 +2106,7 @@ func (self *Node) parseRaw(full bool) {
 			n = *newSyntaxError(parser.syntaxError(e))
 			e = 0
 		}
+		verifhook.Point(verifhook.AstBeforeAssign)
 		self.assign(n)
 	} else {
 		*self, e = parser.Parse()
@@ -2115,5 +2119,6 @@ func (self *Node) parseRaw(full bool) {
 func (self *Node) assign(n Node) {
 	self.l = n.l
 	self.p = n.p
+	verifhook.Point(verifhook.AstAssignMid)
 	atomic.StoreInt64(&self.t, n.t)
 }
